@@ -497,3 +497,96 @@ def run_de_job(prog, job):
     res['feas_queries'] = eng.nq; res['solver_time'] += eng.tq
     res['wall'] = time.time() - t0
     return res
+
+
+# ---- C10 after a mutation: the double-ended iterators on the forest a mutator leaves behind (INV assumed only before the call)
+
+def run_de_history_job(prog, job):
+    t0 = time.time()
+    op, N = job['op_mut'], job['N']
+    prefixes = tuple(p + '.' for p in job['props'])
+    ctx = harness.Ctx(prog, op, N, job.get('fix_t'), job.get('fix_x'))
+    eng = ctx.eng
+    res = new_result(job)
+    if not ctx.pre_sat():
+        res['vacuous'] = True; return res
+    outs = ctx.explore()
+    aref = Ref(ctx.acell, ())
+    z = z3.BitVec('dz', 64)
+    for o in outs:
+        res['paths'] += 1; res['steps'] += o.state.steps
+        kind, rv = harness.result_class(op, o)
+        if kind not in ('ok', 'result'): continue
+        V = View(o.state.store[ctx.acell])
+        live = [V.live(i) for i in range(V.N)]
+        s0 = o.state.copy(); cz = z3.And(z3.UGE(z, 1), z3.ULE(z, V.N), sel(live, z))
+        if not eng.feasible(s0, cz): continue
+        s0.pc.append(cz); s0.model = None
+        idz = mk_id(z, sel(V.stamp, z))
+        for name in job.get('iters', DE):
+            meth = method_lookup(prog, ITER_TYPE[name])
+            ctor = find_fn(prog, 'NodeId', name)
+            def fresh(st_):
+                s_ = st_.copy(); s_.steps = 0
+                eng.push_call(s_, ctor, [idz, aref], None, None)
+                return [(oc.state, oc.state.new_cell(oc.value), []) for oc in eng.run(s_) if oc.kind == 'return']
+            for (s1, _, fseq, fin) in drive(eng, fresh(s0), meth, 2 * V.N + 2):
+                res['paths'] += 1
+                if fin is not True:
+                    check_obligations(eng, list(s1.pc), [('C10.%s.forward_finite_after_%s' % (name, op), F_)], prefixes, res,
+                                      lambda m, failed: de_hist_viol(ctx, m, failed, op, name, z)); continue
+                F = [id_terms(v) for v in fseq]; k = len(F)
+                # all pulls from the back: the forward sequence reversed, then None
+                for (s2, _, pseq, fin2) in drive(eng, fresh(s1), meth, 0, pulls='b' * (k + 1)):
+                    res['paths'] += 1; res['steps'] += s2.steps
+                    ob = []
+                    if fin2 is not True: ob.append(('C10.%s.backward_completes_after_%s' % (name, op), F_))
+                    else:
+                        for j, got in enumerate(pseq):
+                            if j < k:
+                                if got is None: ob.append(('C10.%s.backward_is_forward_reversed_after_%s[%d]' % (name, op, j), F_))
+                                else:
+                                    gi, gs = id_terms(got)
+                                    ob.append(('C10.%s.backward_is_forward_reversed_after_%s[%d]' % (name, op, j), z3.And(gi == F[k - 1 - j][0], gs == F[k - 1 - j][1])))
+                            else:
+                                ob.append(('C10.%s.none_after_exhaustion_after_%s' % (name, op), z3.BoolVal(got is None)))
+                        res['nontrivial'] += 1 if k >= 2 else 0
+                    check_obligations(eng, list(s2.pc), ob, prefixes, res, lambda m, failed: de_hist_viol(ctx, m, failed, op, name, z))
+    if eng.solver.check() == z3.sat:
+        m = eng.solver.model()
+        res['samples'].append({'harness': '%s then %s forward vs backward' % (op, job.get('iters', DE)), 'N': N, 'args': ctx.args_dict(m), 'pre': ctx.A.model_dict(m)})
+    res['feas_queries'] = eng.nq; res['solver_time'] += eng.tq
+    res['wall'] = time.time() - t0
+    return res
+
+
+def de_hist_viol(ctx, m, failed, op, name, z):
+    return {'kind': 'custom', 'module': 'iters', 'confirm': 'confirm_de_history', 'checks': failed, 'op': op, 'N': ctx.N, 'cfg': 'dev', 'role': 'de_history',
+            'pre': ctx.A.model_dict(m), 'args': dict(ctx.args_dict(m), iter=name, z=m.eval(z, model_completion=True).as_long())}
+
+
+def confirm_de_history(prop, v):
+    import replay
+    pre = v['pre']; a = v['args']
+    detail = {}; status = 'not_reproduced'
+    for profile in ('dev', 'release'):
+        lines = replay.construct_script(pre)
+        n0 = len(lines)
+        lines.append(replay.op_line(v['op'], a, pre))
+        lines += ['iter %s s%d' % (a['iter'], a['z']), 'iter_rev %s s%d' % (a['iter'], a['z'])]
+        res = replay.run_script(lines, profile)
+        d = res.get(n0 - 1)
+        try: ok = replay.same_state(replay.parse_dump(d[1]), pre)
+        except Exception: ok = False
+        f, b = res.get(n0 + 1), res.get(n0 + 2)
+        bad = []
+        if not f or not b or f[0] != 'OK' or b[0] != 'OK': bad.append('iteration did not complete: %s %s' % (f, b))
+        else:
+            fl = [x for x in f[1].split('NodeId') if x]; bl = [x for x in b[1].split('NodeId') if x]
+            if [x.rstrip(',') for x in fl] != [x.rstrip(',') for x in reversed(bl)]: bad.append('forward %s / backward %s' % (f[1][:200], b[1][:200]))
+        detail[profile] = {'pre_ok': ok, 'bad': bad}
+        detail.setdefault('script', lines)
+        if not ok:
+            if status == 'not_reproduced': status = 'unreachable'
+        elif bad: status = 'reproduced'
+    return status, detail
